@@ -43,6 +43,13 @@ def configs(tier):
         cfg.append({'nv': 3, 'ns': 2, 'order': list(o), 'depth': 3 if tier == 'quick' else 4,
                     'gc_free': False})
     cfg.append({'nv': 2, 'ns': 2, 'order': list(VARS[:2]), 'depth': 99, 'gc_free': True})
+    # a diagram over another ordering of the same variables lives in the same process-global store
+    cfg.append({'nv': 2, 'ns': 1, 'order': list(VARS[:2]), 'depth': 99, 'gc_free': False,
+                'foreign': list(VARS[:2])[::-1]})
+    cfg.append({'nv': 2, 'ns': 2, 'order': list(VARS[:2])[::-1], 'depth': 3 if tier == 'quick' else 4,
+                'gc_free': False, 'foreign': list(VARS[:2])})
+    cfg.append({'nv': 3, 'ns': 1, 'order': list(VARS[:3]), 'depth': 3 if tier == 'quick' else 4,
+                'gc_free': False, 'foreign': [VARS[2], VARS[0], VARS[1]]})
     if tier == 'quick':
         cfg.append({'nv': 2, 'ns': 3, 'order': list(VARS[:2]), 'depth': 3, 'gc_free': False})
     else:
@@ -60,7 +67,7 @@ def plan(tier, seed):
     return [['bfs', i] for i in range(len(configs(tier)))]
 
 
-def ops_for(nv, ns):
+def ops_for(nv, ns, foreign=False):
     V = VARS[:nv]
     menu = MENU2 if nv == 2 else MENU3
     ops = []
@@ -84,6 +91,11 @@ def ops_for(nv, ns):
             ops.append(('mknode', i, v))
     ops.append(('gc',))
     ops.append(('failing',))
+    if foreign:
+        for e in menu:
+            ops.append(('fbuild', e))
+        ops.append(('fdrop',))
+        ops.append(('fneg',))
     return ops
 
 
@@ -106,8 +118,28 @@ class World(object):
         return None
 
     def step(self, slots, model, op):
-        """Apply op to the real slots and to the model.  Returns False if not enabled."""
+        """Apply op to the real slots and to the model.  Returns False if not enabled.
+
+        With a 'foreign' ordering in the configuration the last slot holds a diagram over that other
+        ordering (same variables, same process-global node store); it is only ever built, negated and
+        dropped."""
         k = op[0]
+        if k == 'fbuild':
+            slots[-1] = OBDD(op[1], list(self.cfg['foreign']))
+            model[-1] = self.exprs[op[1]]
+            return True
+        if k == 'fdrop':
+            if slots[-1] is None:
+                return False
+            slots[-1] = None
+            model[-1] = None
+            return True
+        if k == 'fneg':
+            if slots[-1] is None:
+                return False
+            slots[-1] = ~slots[-1]
+            model[-1] = tuple(not x for x in model[-1])
+            return True
         if k == 'build':
             slots[op[1]] = OBDD(op[2], list(self.order))
             model[op[1]] = self.exprs[op[2]]
@@ -175,9 +207,12 @@ class World(object):
             return True
         raise ValueError(op)
 
+    def nslots(self):
+        return self.cfg['ns'] + (1 if self.cfg.get('foreign') else 0)
+
     def run(self, hist):
-        slots = [None] * self.cfg['ns']
-        model = [None] * self.cfg['ns']
+        slots = [None] * self.nslots()
+        model = [None] * self.nslots()
         for op in hist:
             self.step(slots, model, op)
         return slots, model
@@ -191,6 +226,17 @@ class World(object):
 
     def invariant(self, slots, model, live, deep):
         pos = dict((v, i) for i, v in enumerate(self.order))
+        foreign = self.cfg.get('foreign')
+        main_ids = None
+        if foreign:
+            # which live nodes belong to diagrams of which ordering (a node may belong to both)
+            fpos = dict((v, i) for i, v in enumerate(foreign))
+            main_ids, f_ids = set(), set()
+            for s in slots[:-1]:
+                if s is not None:
+                    main_ids |= set(id(x) for x in s.root.descendents())
+            if slots[-1] is not None:
+                f_ids = set(id(x) for x in slots[-1].root.descendents())
         seen = {}
         for n in live:
             key = (n.var, id(n.low), id(n.high))
@@ -200,7 +246,15 @@ class World(object):
             if n.low is n.high:
                 return 'live node with low is high'
             for c in (n.low, n.high):
-                if isinstance(c, BDDNonTerminalNode) and not pos[n.var] < pos[c.var]:
+                if not isinstance(c, BDDNonTerminalNode):
+                    continue
+                if foreign:
+                    if id(n) in main_ids and not pos[n.var] < pos[c.var]:
+                        return 'node %s of a slot diagram not ordered above child %s' % (n.var, c.var)
+                    if id(n) in f_ids and not fpos[n.var] < fpos[c.var]:
+                        return 'node %s of the other-ordering diagram not ordered above child %s' % (
+                            n.var, c.var)
+                elif not pos[n.var] < pos[c.var]:
                     return 'live node %s not ordered above child %s' % (n.var, c.var)
             if n not in n.low.f_low or n not in n.high.f_high:
                 return 'live node missing from its children\'s parent sets'
@@ -213,10 +267,13 @@ class World(object):
         # two distinct live nodes must not denote the same function (canonicity of the store)
         by_fn = {}
         for n in live:
+            if foreign and id(n) not in main_ids:
+                continue        # diagrams over different orderings may denote one function with two nodes
             t = self.tt.of_node(n)
             if t in by_fn and by_fn[t] is not n:
                 return 'two live nodes denote the same function'
             by_fn[t] = n
+        nmain = self.cfg['ns']
         for i, a in enumerate(slots):
             if a is None:
                 continue
@@ -224,7 +281,9 @@ class World(object):
             if got != model[i]:
                 return 'slot %d denotes %s, the model says %s' % (
                     i, [int(x) for x in got], [int(x) for x in model[i]])
-            for j, b in enumerate(slots):
+            if i >= nmain:
+                continue
+            for j, b in enumerate(slots[:nmain]):
                 if b is None:
                     continue
                 same = model[i] == model[j]
@@ -244,7 +303,7 @@ class World(object):
 
 def bfs(cfg, acc):
     w = World(cfg)
-    ops = ops_for(cfg['nv'], cfg['ns'])
+    ops = ops_for(cfg['nv'], cfg['ns'], bool(cfg.get('foreign')))
     if cfg['gc_free']:
         gc.enable()
         gc.set_threshold(1, 1, 1)
@@ -342,8 +401,8 @@ def replay(art):
     else:
         gc.disable()
     try:
-        slots = [None] * cfg['ns']
-        model = [None] * cfg['ns']
+        slots = [None] * w.nslots()
+        model = [None] * w.nslots()
         for i, op in enumerate(hist):
             r = call(w.step, slots, model, op)
             if r[0] != 'ok':
